@@ -64,10 +64,10 @@ theorem fingerprints_expected : fingerprints = [
   ("search.go:updateTSIDsForPrefix", "8a0c0747ef28d61e"),
   ("search.go:searchTSIDs", "0c7989d846470148"),
   ("search.go:searchTSIDsInternal", "a5a0f3f2d66a9beb"),
-  ("search.go:searchTSIDsByBinaryExpr", "7e24df9c5977d348"),
+  ("search.go:searchTSIDsByBinaryExpr", "163f58a31b2ccb5f"),
   ("search.go:containsMeasurement", "12eda58a41ec2b70"),
-  ("search.go:measurementSeriesByExprIterator", "600f35b6b00b6edf"),
-  ("search.go:seriesByExprIterator", "25b9aff499230fef"),
+  ("search.go:measurementSeriesByExprIterator", "0d321f2ec7a496f2"),
+  ("search.go:seriesByExprIterator", "5ee24fa3c1357fff"),
   ("search.go:seriesByBinaryExpr", "5e5bf134833900d7"),
   ("search.go:isAllAndExpr", "41a7de19422cc665"),
   ("search.go:seriesByAllAndExprIterator", "c0203fd0a2352890"),
@@ -239,7 +239,23 @@ theorem tfFingerprints_expected : tfFingerprints = [
   ("tag_filters.go:simplifyRegexpExt", "689921beccd8a3fa"),
   ("tag_filters.go:SetRegexMatchAll", "91d22e68c10c5cb5"),
   ("search.go:getTSIDsForTagFilterSlow", "b9d10d3ed04799cb"),
+  ("search.go:chooseINPriority", "262e2d046f5ad34e"),
+  ("search.go:seriesByINExprIterator", "0f7232368bf00559"),
+  ("search.go:seriesByBinaryExprSetLiteral", "51c5d07cbb5430ab"),
+  ("search.go:seriesByBinaryExprVarRef", "ce704c78c9911f3e"),
+  ("search.go:seriesByOneTagFilter", "0dd6cae0711b5d67"),
+  ("search.go:seriesByAllIdsIterator", "a5a8cb35cebc0d18"),
+  ("search.go:isFieldExpr", "c4e5aa1c8c2718da"),
+  ("search.go:isAllFieldExpr", "cfff72775e69a66a"),
+  ("search.go:isAllAndOpValid", "9f4b089873a6986a"),
+  ("search.go:isAllAndSubExprValid", "cab58ee469678e14"),
+  ("search.go:isAllAndValueExprValid", "dc8617da9ea2b8e5"),
+  ("search_prune.go:doPruneWithSet", "bb32dd3aac852e02"),
+  ("search_prune.go:matchSeriesKeyWithSet", "70eb74759be0520a"),
+  ("search_prune.go:matchSeriesKeyWithSetTag", "944cb1a1b18a4d39"),
   ("search.go:collectTSIDsForSuffix", "a42bb19f0cb6c35f")
 ] := by rfl
+
+theorem pruneWithSetTagValSize_expected : pruneWithSetTagValSize = 10 := by rfl
 
 end OG.C10.Facts
